@@ -382,7 +382,9 @@ class Ref:
                     break
                 q = r[0]
                 if keepsep:
-                    its.append(self.closed(fold_items(r[1])))
+                    sv = fold_items(r[1])
+                    if not (sv is None and 'later-none-iteration-dropped' in self.quirks):
+                        its.append(sv)
                 b2 += r[2]
                 s2.cut = True   # a join commits after each separator
             sb = Scope()
